@@ -879,6 +879,85 @@ def _analyse(fn, tainted_params, fns, writes, calls):
     run(fn.node.body, T0)
 
 
+SET_METHODS = ("union", "intersection", "difference", "symmetric_difference", "copy")
+ORDER_CONSUMERS = ("list", "tuple", "zip", "enumerate", "iter", "next", "dict", "OrderedDict")
+
+
+def _set_iterations():
+    """every place where the order in which a SET yields its elements can reach a result: `for` loops and
+    comprehensions over a set-typed expression, list()/tuple()/zip()/enumerate()/iter()/next()/dict.fromkeys()/
+    str.join() of one, star-unpacking and .pop() of one.  Set-typed = a set()/frozenset() call, a set literal or
+    comprehension, a union/intersection/difference of such, or a local name bound to one in the same function
+    (flow-insensitive).  sorted(), len(), membership tests, comparisons and all()/any() are order-free."""
+    out = []
+    for m in SITE_MODULES:
+        try:
+            tree = ast.parse(src(m))
+        except Exception:
+            continue
+        scopes = [tree] + [n for n in ast.walk(tree) if isinstance(n, (ast.FunctionDef, ast.Lambda))]
+        for scope in scopes:
+            body_nodes = list(ast.walk(scope))
+            names = set()
+
+            def is_set(e):
+                if isinstance(e, (ast.Set, ast.SetComp)):
+                    return True
+                if isinstance(e, ast.Name):
+                    return e.id in names
+                if isinstance(e, ast.Call):
+                    f = e.func
+                    if isinstance(f, ast.Name) and f.id in ("set", "frozenset"):
+                        return True
+                    if isinstance(f, ast.Attribute) and f.attr in SET_METHODS and is_set(f.value):
+                        return True
+                if isinstance(e, ast.BinOp) and isinstance(e.op, (ast.BitOr, ast.BitAnd, ast.Sub, ast.BitXor)):
+                    return is_set(e.left) or is_set(e.right)
+                if isinstance(e, ast.IfExp):
+                    return is_set(e.body) or is_set(e.orelse)
+                return False
+            for _ in range(3):                       # names bound to sets (to a fixpoint over short chains)
+                for n in body_nodes:
+                    if isinstance(n, ast.Assign) and is_set(n.value):
+                        for t in n.targets:
+                            if isinstance(t, ast.Name):
+                                names.add(t.id)
+                    elif isinstance(n, ast.AnnAssign) and n.value is not None and is_set(n.value) \
+                            and isinstance(n.target, ast.Name):
+                        names.add(n.target.id)
+            # generator / comprehension handed straight to an order-free consumer
+            order_free = set()
+            for n in body_nodes:
+                if isinstance(n, ast.Call) and isinstance(n.func, ast.Name) and \
+                        n.func.id in ("any", "all", "set", "frozenset", "sorted", "sum", "len") and n.args and \
+                        isinstance(n.args[0], (ast.GeneratorExp, ast.ListComp, ast.SetComp)):
+                    for g in n.args[0].generators:
+                        order_free.add(id(g))
+            for n in body_nodes:
+                hits = []
+                if id(n) in order_free:
+                    continue
+                if isinstance(n, ast.For) and is_set(n.iter):
+                    hits.append(n.iter)
+                elif isinstance(n, ast.comprehension) and is_set(n.iter):
+                    hits.append(n.iter)
+                elif isinstance(n, ast.Starred) and is_set(n.value):
+                    hits.append(n.value)
+                elif isinstance(n, ast.Call):
+                    f = n.func
+                    if isinstance(f, ast.Name) and f.id in ORDER_CONSUMERS:
+                        hits += [a for a in n.args if is_set(a)]
+                    elif isinstance(f, ast.Attribute) and f.attr in ("fromkeys", "join", "extend", "update") \
+                            and not (f.attr == "update" and is_set(f.value)):
+                        hits += [a for a in n.args if is_set(a)]
+                    elif isinstance(f, ast.Attribute) and f.attr == "pop" and is_set(f.value) and not n.args:
+                        hits.append(f.value)
+                for h in hits:
+                    out.append((m, h.lineno, ast.unparse(n if isinstance(n, ast.Call) else h)[:80]))
+    return sorted(set(out))
+
+
+
 def gen_sites():
     fns = _collect_functions()
     writes, seen = set(), set()
@@ -916,33 +995,7 @@ def gen_sites():
         print(f"extract: site analysis failed: {type(e).__name__}: {e}", file=sys.stderr)
 
     # C12: iterations over set-typed values
-    set_iters = []
-    for m in SITE_MODULES:
-        try:
-            text = src(m)
-            tree = ast.parse(text)
-        except Exception:
-            continue
-        for node in ast.walk(tree):
-            it = None
-            if isinstance(node, ast.For):
-                it = node.iter
-            elif isinstance(node, ast.comprehension):
-                it = node.iter
-            elif isinstance(node, ast.Call) and isinstance(node.func, ast.Name) and node.func.id in ("list", "tuple", "zip") \
-                    and node.args:
-                for a in node.args:
-                    if isinstance(a, ast.Call) and isinstance(a.func, ast.Name) and a.func.id in ("set", "frozenset"):
-                        set_iters.append((m, a.lineno, ast.unparse(node)[:80]))
-                continue
-            if it is None:
-                continue
-            if isinstance(it, ast.Call) and isinstance(it.func, ast.Name) and it.func.id in ("set", "frozenset"):
-                set_iters.append((m, it.lineno, ast.unparse(it)[:80]))
-            elif isinstance(it, ast.BinOp) and isinstance(it.op, (ast.BitOr, ast.BitAnd, ast.Sub)) and any(
-                    isinstance(x, ast.Call) and isinstance(x.func, ast.Name) and x.func.id in ("set", "frozenset")
-                    for x in (it.left, it.right)):
-                set_iters.append((m, it.lineno, ast.unparse(it)[:80]))
+    set_iters = _set_iterations()
 
     lines = ["import XgcmModel.Model.Basic",
              "/- GENERATED by tools/extract.py (static taint analysis of xgcm/*.py) — do not edit -/",
